@@ -1,1 +1,204 @@
-import EventppVerif.Q.Machine
+import EventppVerif.Q.OrdAux
+import EventppVerif.Q.Shape
+import EventppVerif.Q.Eval
+/-
+  Property C13 — OrderedQueueList processes events in comparator order, stably, exactly once.
+
+  "With the OrderedQueueList queue policy, every processing call dispatches the pending events in
+  non-decreasing order of the comparator, events that compare equal keep their enqueue order, …
+  also for events put back by processIf/processUntil and for events enqueued while a processing
+  call runs, which are merged in order for the next call."
+
+  Model: Q/Machine.lean with `ordered = some asc` (`asc = true`: ascending by event key,
+  `asc = false`: descending): every splice into `queueList` is followed by the stable re-sort
+  `settle` (= `List.mergeSort (slotLe asc)`).  Events carry the ghost enqueue sequence number `seq`.
+
+  The order: `lexLe asc a b` (Q/OrdAux.lean) — both slots hold an event and `a`'s event is
+  strictly before `b`'s in comparator order, or they have equal keys and `a`'s was enqueued earlier.
+  A list that is `Pairwise (lexLe asc)` is therefore in non-decreasing comparator order with ties
+  in enqueue order, and all its slots (if there are at least two) are occupied.
+
+  All theorems quantify over every behaviour `b` of listeners, filters and predicates (arbitrary
+  programs, re-entrant to any depth), every initial world and both directions `asc`.
+  Proof: the invariant `SI` of Q/OrdAux.lean (holds initially, preserved by `QCfg.step`, through the
+  building blocks `nextFilter`/`nextListener`/`procNext`/`finishProc`/`endDispatch`/`startProc`/
+  `apply`) and the stack-shape invariant `Shape` of Q/Shape.lean.
+-/
+namespace Evp.Q
+open Evp QCfg
+
+/-- **C13 (the queue is always sorted).**  In every reachable configuration of an ordered queue,
+    `queueList` is in comparator order with ties in enqueue order — whatever was enqueued (also from
+    inside listeners, filters and predicates while processing calls run) and whatever was put back
+    by `processIf`/`processUntil`.  Moreover every queued slot is occupied. -/
+theorem C13_queue_sorted (b : QBeh) (c : QCfg) (asc : Bool) (hr : ReachE b c)
+    (ho : c.ordered = some asc) :
+    c.queue.Pairwise (fun a b => lexLe asc a b) ∧ ∀ s ∈ c.queue, ∃ e, s.ev = some e := by
+  obtain ⟨-, h⟩ := reachable_SIc hr ho
+  refine ⟨h.qsorted, ?_⟩
+  intro s hs
+  obtain ⟨e, he, -⟩ := h.occ s (List.mem_append_right _ hs)
+  exact ⟨e, he⟩
+
+/-- **C13 (a processing call dispatches in that order).**  In every reachable configuration of an
+    ordered queue, for every processing-call frame `.proc mode todo kept idle phase` anywhere in the
+    stack (processing calls nest when a listener calls `process` again):
+    * the events already put back followed by the events still to be examined, `kept ++ todo`, are
+      sorted by `lexLe` (so `todo` is: the call examines the pending events from the head of `todo`,
+      in comparator order, ties in enqueue order);
+    * `todo` is not empty, its head slot holds an event `e` — the event being examined —, and there
+      is a frame directly above the processing call; in phase `.disp` that frame is the running
+      dispatch of `e.key` (`.filt e.key ..`, `.iter e.key ..`, or `.done` when it has just ended),
+      in phase `.pred` it is the predicate's program. -/
+theorem C13_dispatch_order (b : QBeh) (c : QCfg) (asc : Bool) (hr : ReachE b c)
+    (ho : c.ordered = some asc) (above below : List QFrame) (mode : PMode)
+    (todo kept idle : List Slot) (ph : Phase)
+    (hst : c.stack = above ++ .proc mode todo kept idle ph :: below) :
+    (kept ++ todo).Pairwise (fun a b => lexLe asc a b) ∧
+    todo.Pairwise (fun a b => lexLe asc a b) ∧
+    ∃ above' f s rest e, above = above' ++ [f] ∧ todo = s :: rest ∧ s.ev = some e ∧
+      (ph = .disp → isDisp e.key f) ∧ (ph = .pred → isProgish f) := by
+  obtain ⟨-, h⟩ := reachable_SIc hr ho
+  have hs := reachable_shape hr
+  rw [hst] at hs
+  have hk : (kept ++ todo).Pairwise (lexLe asc) :=
+    h.fsorted (.proc mode todo kept idle ph) (by rw [hst]; simp)
+  exact ⟨hk, (List.pairwise_append.1 hk).2.1, shape_proc_frame hs⟩
+
+/-- **C13 (ties across calls).**  In every reachable configuration of an ordered queue, an event
+    heldE by a processing call (taken from the queue earlier) and an event with the same key that is
+    in the queue now are in enqueue order: the heldE one was enqueued first.  Hence an event enqueued
+    while a processing call runs never overtakes an equal event of that call, also when that one is
+    put back: it is "merged in order for the next call".  Every heldE or queued event has
+    `seq < nextSeq`, the number the next enqueued event gets. -/
+theorem C13_taken_before_queued (b : QBeh) (c : QCfg) (asc : Bool) (hr : ReachE b c)
+    (ho : c.ordered = some asc) (mode : PMode) (todo kept idle : List Slot) (ph : Phase)
+    (hf : QFrame.proc mode todo kept idle ph ∈ c.stack) (s t : Slot) (x y : QEvent)
+    (hs : s ∈ kept ++ todo) (ht : t ∈ c.queue) (hx : s.ev = some x) (hy : t.ev = some y) :
+    (x.key = y.key → x.seq < y.seq) ∧ x.seq < c.nextSeq ∧ y.seq < c.nextSeq := by
+  obtain ⟨-, h⟩ := reachable_SIc hr ho
+  have hsh : s ∈ heldE c.stack := mem_held hf hs
+  refine ⟨(List.pairwise_append.1 h.tie).2.2 s hsh t ht x y hx hy, ?_, ?_⟩
+  · obtain ⟨e, he, hlt⟩ := h.occ s (List.mem_append_left _ hsh)
+    rw [hx] at he; cases he; exact hlt
+  · obtain ⟨e, he, hlt⟩ := h.occ t (List.mem_append_right _ ht)
+    rw [hy] at he; cases he; exact hlt
+
+/-- **C13 (a new processing call takes a prefix of the sorted queue).**  `startProc` on a non-empty
+    queue continues as `procNext` with `todo` and the remaining queue `q` such that
+    `todo ++ q` is the (sorted) queue: everything for `process`/`processIf`/`processUntil`, the head
+    for `processOne`. -/
+theorem C13_startProc_prefix (b : QBeh) (c : QCfg) (mode : PMode) (k : QRes → QProg)
+    (rest : List QFrame) (hne : c.queue ≠ []) :
+    ∃ todo q, todo ++ q = c.queue ∧ (mode = .one → todo = c.queue.take 1) ∧
+      (mode ≠ .one → todo = c.queue) ∧
+      startProc b c mode k rest =
+        procNext b { c with queue := q, ec := c.ec + 1 } mode todo [] [] (.wait k :: rest) := by
+  have hne' : c.queue.isEmpty = false := by
+    cases hq : c.queue with
+    | nil => exact (hne hq).elim
+    | cons _ _ => rfl
+  cases mode with
+  | one =>
+    exact ⟨c.queue.take 1, c.queue.drop 1, List.take_append_drop 1 c.queue, fun _ => rfl,
+      fun h => (h rfl).elim, by simp [startProc, hne']⟩
+  | all => exact ⟨c.queue, [], by simp, nofun, fun _ => rfl, by simp [startProc, hne']⟩
+  | ifp p => exact ⟨c.queue, [], by simp, nofun, fun _ => rfl, by simp [startProc, hne']⟩
+  | untilp p => exact ⟨c.queue, [], by simp, nofun, fun _ => rfl, by simp [startProc, hne']⟩
+
+/-- **C13 (`todo` is consumed from the head).**  When the dispatch of the head `s` of `todo` has
+    ended, the event is consumed (ghost event `.consumed seq 0`), the emptied slot goes to `idle`,
+    and the call goes on with the rest of `todo`.  (By definition of `endDispatch`; stated for the
+    record.) -/
+theorem C13_next_is_tail (b : QBeh) (c : QCfg) (mode : PMode) (s : Slot) (e : QEvent)
+    (rest kept idle : List Slot) (below : List QFrame) (hev : s.ev = some e) :
+    endDispatch b c (.proc mode (s :: rest) kept idle .disp :: below) =
+      procNext b (c.push (.consumed e.seq 0)) mode rest kept (idle ++ [{ s with ev := none }]) below := by
+  simp [endDispatch, hev]
+
+/-- **C13 (settling is a permutation).**  The re-sort of `OrderedQueueList` (and the plain splice of
+    `std::list`) never loses or duplicates a slot, so the exactly-once accounting of C05 does not
+    depend on the queue policy. -/
+theorem C13_perm (o : Option Bool) (l : List Slot) : List.Perm (settle o l) l :=
+  settle_perm o l
+
+/-- **C13 (what settling produces).**  If every slot of `l` is occupied and equal keys occur in `l`
+    in enqueue order (`tieOK`), then `settle (some asc) l` is in comparator order with ties in
+    enqueue order: the stable sort merges put-back and newly enqueued events in order. -/
+theorem C13_settle_sorted (asc : Bool) (l : List Slot) (hocc : ∀ s ∈ l, ∃ e, s.ev = some e)
+    (htie : l.Pairwise tieOK) : (settle (some asc) l).Pairwise (fun a b => lexLe asc a b) :=
+  pairwise_lexLe_settle asc l hocc htie
+
+/-! ### non-vacuity -/
+
+namespace C13ex
+
+def seqP : List QCmd → QProg
+  | [] => .ret true
+  | c :: r => .op c (fun _ => seqP r)
+
+/-- listener 7 returns; predicate 50 declines exactly the event with argument 10 -/
+def beh : QBeh where
+  run := fun call _ => match call.kind with
+    | .pred => .ret (decide (call.arg ≠ 10))
+    | _ => .ret true
+  rewrite := fun _ a => a
+
+/-- ascending queue; keys 3,1,2,1 enqueued (arguments 30,10,20,11); `processIf` whose predicate
+    declines the first key-1 event (argument 10); another key-1 event (argument 12); `process`. -/
+def prog : QProg := seqP
+  [.listen 1 7, .listen 2 7, .listen 3 7,
+   .enqueue 3 30, .enqueue 1 10, .enqueue 2 20, .enqueue 1 11,
+   .processIf 50, .enqueue 1 12, .process]
+
+def c0 : QCfg := { ordered := some true, nkeys := 4, stack := [.prog prog] }
+
+def listenerArgs (tr : List QEv) : List (Nat × Nat) :=
+  tr.reverse.filterMap (fun
+    | .call ⟨.listener, key, _, _, arg⟩ => some (key, arg)
+    | _ => none)
+
+def consumedSeqs (tr : List QEv) : List Nat :=
+  tr.reverse.filterMap (fun | .consumed s 0 => some s | _ => none)
+
+theorem c0_init : InitE c0 := ⟨rfl, rfl, rfl, rfl, rfl, rfl, _, rfl⟩
+
+/-- The first call dispatches key 1 (the second one enqueued: the first was declined), 2, 3 — sorted
+    although enqueued as 3,1,2,1; the declined event is put back and the next call dispatches it
+    *before* the key-1 event enqueued later (ties in enqueue order).  Every event exactly once. -/
+example : listenerArgs (runN beh 200 c0).1.trace = [(1, 11), (2, 20), (3, 30), (1, 10), (1, 12)] ∧
+    consumedSeqs (runN beh 200 c0).1.trace = [3, 2, 0, 1, 4] ∧
+    (runN beh 200 c0).2 = true := by
+  rw [runN_eq_eval]
+  decide +kernel
+
+/-- after the four enqueues the queue is sorted: keys 1,1,2,3 with the two key-1 events in enqueue
+    order (seq 1 before seq 3) -/
+example : (runN beh 7 c0).1.queue.map (fun s => s.ev.map (fun e => (e.key, e.seq))) =
+    [some (1, 1), some (1, 3), some (2, 2), some (3, 0)] := by
+  rw [runN_eq_eval]
+  decide +kernel
+
+/-- the hypotheses of the theorems are satisfiable: that configuration is reachable and ordered, and
+    its queue is sorted (checked here by evaluation as well) -/
+example : ReachE beh (runN beh 7 c0).1 ∧ (runN beh 7 c0).1.ordered = some true :=
+  ⟨⟨c0, 7, c0_init, rfl⟩, by rw [runN_ordered]; rfl⟩
+
+/-- descending order works the same way -/
+example : listenerArgs (runN beh 200 { c0 with ordered := some false }).1.trace =
+    [(3, 30), (2, 20), (1, 11), (1, 10), (1, 12)] := by
+  rw [runN_eq_eval]
+  decide +kernel
+
+/-- a processing-call frame in the middle of a run: while listener 7 runs for the event with
+    argument 11 (step 10), the frame's `todo` is keys `[1, 2, 3]`, `kept` is the declined key-1
+    event, phase `.disp`, and the frame sits under the listener's program and the `.iter 1` frame -/
+example : ((runN beh 10 c0).1.stack.map (fun
+      | .proc _ todo kept _ ph => some (todo.map (fun s => s.ev.map (·.key)), kept.map (fun s => s.ev.map (·.key)), ph)
+      | _ => none)) =
+    [none, none, some ([some 1, some 2, some 3], [some 1], .disp), none] := by
+  rw [runN_eq_eval]
+  decide +kernel
+
+end C13ex
+end Evp.Q
